@@ -13,13 +13,87 @@ import (
 	"golang.org/x/tools/go/ssa"
 )
 
-// guardedBy is the frozen guarded-by table: package-level maps and the mutex
-// that protects each. Inferred from 6/6 consistent accesses on the pinned
-// tree and confirmed by reading.
-var guardedBy = map[string]string{
-	"avro.registry":       "avro.registryMutex",
-	"avro.schemaRegistry": "avro.schemaRegistryMutex",
-	"time.tzMap":          "time.tzLock",
+// guardedBy is the guarded-by table: package-level maps and the mutex that
+// protects each. On the pinned tree it is {avro.registry: avro.registryMutex,
+// avro.schemaRegistry: avro.schemaRegistryMutex, time.tzMap: time.tzLock}
+// (6/6 consistent accesses, confirmed by reading). It is recomputed from the
+// current source by computeGuardedBy so that renaming or moving these
+// variables is not an event: a package-level map is guarded by the
+// package-level mutex that is locked in the largest number of the functions
+// touching the map (at least one). A map for which no such mutex exists is
+// left to LK-GLOBAL, which rejects unsynchronised shared state; LK-GUARD then
+// demands the inferred mutex at every single access.
+var guardedBy = map[string]string{}
+
+// role names of the two registries (set by computeGuardedBy): the map from
+// reflect.Type to a codec builder, and the map from reflect.Type to a Schema.
+var registryKey, schemaRegistryKey = "avro.registry", "avro.schemaRegistry"
+
+func computeGuardedBy(P *Program) {
+	guardedBy = map[string]string{}
+	isMutex := func(t types.Type) bool {
+		n, ok := types.Unalias(t).(*types.Named)
+		return ok && n.Obj().Pkg() != nil && n.Obj().Pkg().Path() == "sync" && (n.Obj().Name() == "Mutex" || n.Obj().Name() == "RWMutex")
+	}
+	for _, g := range moduleGlobals(P) {
+		mt, isMap := g.Type().(*types.Pointer).Elem().Underlying().(*types.Map)
+		if !isMap {
+			continue
+		}
+		votes := map[string]int{}
+		for _, fn := range P.ModuleFuncs() {
+			if isInitFunc(fn) {
+				continue
+			}
+			touches := false
+			locked := map[string]bool{}
+			for _, b := range fn.Blocks {
+				for _, in := range b.Instrs {
+					if ld, ok := in.(*ssa.UnOp); ok && ld.Op == token.MUL && ld.X == ssa.Value(g) {
+						touches = true
+					}
+					if ci, ok := in.(ssa.CallInstruction); ok {
+						if sc := ci.Common().StaticCallee(); sc != nil && len(ci.Common().Args) > 0 {
+							switch qualName(sc) {
+							case "(*sync.Mutex).Lock", "(*sync.RWMutex).Lock", "(*sync.RWMutex).RLock":
+								if mg, ok := ci.Common().Args[0].(*ssa.Global); ok && isMutex(mg.Type().(*types.Pointer).Elem()) && mg.Pkg == g.Pkg {
+									locked[globalKey(mg)] = true
+								}
+							}
+						}
+					}
+				}
+			}
+			if touches {
+				for m := range locked {
+					votes[m]++
+				}
+			}
+		}
+		best, bestN := "", 0
+		var ms []string
+		for m := range votes {
+			ms = append(ms, m)
+		}
+		sort.Strings(ms)
+		for _, m := range ms {
+			if votes[m] > bestN {
+				best, bestN = m, votes[m]
+			}
+		}
+		if best != "" {
+			guardedBy[globalKey(g)] = best
+		}
+		// roles
+		if isReflectType(mt.Key()) {
+			if sig, ok := mt.Elem().Underlying().(*types.Signature); ok && isCodecErrorSig(P, sig) {
+				registryKey = globalKey(g)
+			}
+			if typeKey(mt.Elem()) == "avro.Schema" {
+				schemaRegistryKey = globalKey(g)
+			}
+		}
+	}
 }
 
 func globalKey(g *ssa.Global) string { return g.Pkg.Pkg.Name() + "." + g.Name() }
